@@ -93,5 +93,73 @@ class SplitVal:
 
 
 def comprehension(ex, node, st, as_set=False):
-    raise Unsupported("comprehension", node)
-    yield
+    """[f(x) for x in S if p(x)] over a set-like S (ListOfSet / Set / dict keys).
+
+    filter only (f is x):   result set = Lambda x. S[x] and p(x)            (exact)
+    image:                  result set M is fresh; for every membership test `n in M` made later nothing is known
+                            except the two sound facts added here for the element type:
+                              M[n]  =>  S[sk(n)] and p(sk(n)) and f(sk(n)) == n      (skolem witness)
+                            and contracts supply the converse through `member_intro`.
+    The element expression and the filter must be pure (no raise, no side effect)."""
+    from .vals import TLSet, TSet, TMap, TOpt, opt_isnone, opt_inner, truth as truth_, coerce
+    if len(node.generators) != 1 or node.generators[0].is_async:
+        raise Unsupported("nested comprehension", node)
+    gen = node.generators[0]
+    if not isinstance(gen.target, ast.Name):
+        raise Unsupported("comprehension target", node)
+    for st1, src in ex.ev(gen.iter, st):
+        if isinstance(src, Raise):
+            yield st1, src
+            continue
+        if isinstance(src, PyList):
+            # small literal list: evaluate element-wise
+            raise Unsupported("comprehension over a literal list", node)
+        if isinstance(src.ty, TMap):
+            src = Val(TLSet(src.ty.key), [src.terms[0], z3.BoolVal(True)])
+        if isinstance(src.ty, TSet):
+            src = Val(TLSet(src.ty.elem), [src.t, z3.BoolVal(True)])
+        if not isinstance(src.ty, TLSet):
+            raise Unsupported("comprehension over %r" % (src.ty,), node)
+        ety = src.ty.elem
+        (es,) = ety.comps()
+        x = z3.Const(fresh_name("cx"), es)
+        xv = Val(ety, [x])
+
+        def body(var_term):
+            frame = dict(st1.env)
+            frame[gen.target.id] = Val(ety, [var_term])
+            st1.frames.append(frame)
+            saved = (st1.ghost, )
+            st1.ghost = True
+            try:
+                conds = [truth_(ex.ev1(c, st1)) for c in gen.ifs]
+                elt = ex.ev1(node.elt, st1)
+            finally:
+                st1.frames.pop()
+                st1.ghost = saved[0]
+            return (z3.And(conds) if conds else z3.BoolVal(True)), elt
+        cond_x, elt_x = body(x)
+        is_identity = isinstance(node.elt, ast.Name) and node.elt.id == gen.target.id
+        if is_identity:
+            arr = z3.Lambda([x], z3.And(z3.Select(src.terms[0], x), cond_x))
+            out = Val(TLSet(ety), [arr, src.terms[1]])
+            ex.note_assumption("filter comprehensions are encoded as lambda-arrays (z3 only)")
+        else:
+            if not isinstance(elt_x, Val) or len(elt_x.terms) != 1:
+                raise Unsupported("comprehension element of type %r" % (getattr(elt_x, "ty", elt_x),), node)
+            rty = elt_x.ty
+            (rs,) = rty.comps()
+            n = z3.Const(fresh_name("cn"), rs)
+            # M = lambda n. exists x. S[x] and p(x) and f(x) == n
+            arr = z3.Lambda([n], z3.Exists([x], z3.And(z3.Select(src.terms[0], x), cond_x, elt_x.t == n)))
+            # distinct iff the source is and f is injective on the filtered source (stated over two fresh skolems)
+            a, b = z3.Const(fresh_name("ca"), es), z3.Const(fresh_name("cb"), es)
+            ca, ea = body(a)
+            cb, eb = body(b)
+            inj = z3.Implies(z3.And(z3.Select(src.terms[0], a), ca, z3.Select(src.terms[0], b), cb, ea.t == eb.t), a == b)
+            out = Val(TLSet(rty), [arr, z3.And(src.terms[1], inj)])
+            ex.note_assumption("image comprehensions are encoded as lambda-arrays with an existential body (z3 only); "
+                               "`no duplicates` is stated as injectivity of the element expression over two skolem elements")
+        if as_set:
+            out = Val(TSet(out.ty.elem), [out.terms[0]])
+        yield st1, out
